@@ -123,6 +123,8 @@ def run(ctx):
 
     # 'a weak-form simulation returns the same solution as the dedicated simulation', also in time: l(v) and add_volumeLoad weigh the same
     ctx.attempt(_c05.load_equivalence_rule, ctx, "R13.14")
+    ctx.attempt(mass_along_normal_rule, ctx)
+    ctx.attempt(interpolate_rule, ctx)
     repo = ctx.repo
     ctx.level = "other"
     ctx.explanation = (
@@ -462,3 +464,97 @@ def forms_rule(ctx):
         run_form(src, True, 2, 2, "vector bilinear")
     for src in LIN_VECTOR:
         run_form(src, False, 2, 2, "vector linear")
+
+
+def mass_along_normal_rule(ctx, rid="R13.15"):
+    """'integrates ... to the same matrix ... as the built-in operator for that form': the built-in surface operator
+    `Bilinear.MassAlongNormal` is the form  coef (u . n)(v . n)  integrated over the facet: entry (3 a + i, 3 b + l) of the
+    element matrix is  sum_p coef wJ_p N_a(p) n_i(p) n_l(p) N_b(p)  with the unit normal AT each integration point (a
+    warped QUAD4 or a curved QUAD8 / TRI6 facet has a normal that varies inside the element).  The operator is interpreted
+    on a facet with two nodes-per-element stand-ins, two integration points, symbolic shape values, weights and one
+    symbolic normal per point, and compared with that sum entry by entry."""
+    from ..femchain import fe_hook_full, XFe
+
+    repo = ctx.repo
+    f = repo.func("EasyFEA.FEM.Operators.Bilinear.MassAlongNormal")
+    ge = repo.cls("EasyFEA.FEM._group_elem._GroupElem")
+    r = ctx.rule(rid, "MassAlongNormal: element matrix == sum_p coef wJ_p N^T (n_p x n_p) N with the normal of each integration point (two points with different normals), interleaved (x, y, z) layout", min_instances=1)
+    r.instance(fn=f.qualname)
+    nPe, nPg = 2, 2
+    N = [[Poly.var(f"N{p}{a}") for a in range(nPe)] for p in range(nPg)]
+    nrm = [[Poly.var(f"n{p}{i}") for i in range(3)] for p in range(nPg)]
+    wJ = [Poly.var(f"w{p}") for p in range(nPg)]
+    coef = Poly.var("k")
+    g = XObj(ge, {"dim": 2, "inDim": 3, "nPe": nPe, "Ne": 1,
+                  "Get_weightedJacobian_e_pg": lambda mt=None: XFe((1, nPg), list(wJ)),
+                  "Get_N_pg": lambda mt=None: XArray((nPg, 1, nPe), [N[p][a] for p in range(nPg) for a in range(nPe)]),
+                  "Get_normals_e_pg": lambda mt=None, *a_, **k_: XFe((1, nPg, 3), [nrm[p][i] for p in range(nPg) for i in range(3)])})
+    I = Interp(repo, max_steps=4_000_000)
+    I.call_hook = fe_hook_full
+    try:
+        K = XArray.from_nested(I.call_function(f, [g, coef]))
+    except XRaise as e:
+        r.fail(f.qualname, "mass-along-normal", f.file, f.lineno, "MassAlongNormal", f"raises {e}")
+        return
+    n = 3 * nPe
+    bad = None
+    if K.shape != (1, n, n):
+        bad = f"shape {K.shape}, expected (Ne, 3 nPe, 3 nPe)"
+    else:
+        for a in range(nPe):
+            for i in range(3):
+                for b in range(nPe):
+                    for l in range(3):
+                        want = sum((coef * wJ[p] * N[p][a] * nrm[p][i] * nrm[p][l] * N[p][b] for p in range(nPg)), Poly())
+                        if bad is None and not is_zero(Poly.of(K[0, 3 * a + i, 3 * b + l]) - want):
+                            bad = f"entry ({3 * a + i}, {3 * b + l}) is {K[0, 3 * a + i, 3 * b + l]!r}, the form gives {want!r}"
+    if bad:
+        r.fail(f.qualname, "mass-along-normal", f.file, f.lineno, "MassAlongNormal", f"{bad}: the built-in operator is not the integral of coef (u.n)(v.n) with the normal of each integration point - a user form written with the same normal field integrates to another matrix on facets whose normal varies")
+    else:
+        r.ok(f"MassAlongNormal == sum_p coef wJ_p N^T (n_p n_p^T) N ({n} x {n} polynomial identities)")
+
+
+def interpolate_rule(ctx, rid="R13.16"):
+    """'a form written by the user in terms of fields ...': a nodal coefficient (a body force, a velocity, a conductivity
+    given at the nodes) enters a form through `Field.Interpolate`.  It is interpreted on a two-element group with the
+    real `Locates_sol_e` / dof maps, for one and two values per node stored node-interleaved (x0, y0, x1, y1, ...) as every
+    dof vector of the library is: the value at integration point p of element e, component c, must be
+    sum_a N_a(p) values[connect[e, a] * dof_n + c]."""
+    from ..femchain import fe_hook_full
+
+    repo = ctx.repo
+    fld = repo.cls("EasyFEA.FEM._field.Field")
+    f = fld.methods["Interpolate"]
+    ge = repo.cls("EasyFEA.FEM._group_elem._GroupElem")
+    r = ctx.rule(rid, "Field.Interpolate: value[e, p, c] == sum_a N_a(p) dofsValues[connect[e, a] * dof_n + c] (node-interleaved storage) for 1 and 2 values per node, on two elements with a scattered numbering", min_instances=2)
+    conn = [[3, 0, 2], [1, 2, 0]]
+    Nn, nPe, nPg = 4, 3, 2
+    N = [[Poly.var(f"N{p}{a}") for a in range(nPe)] for p in range(nPg)]
+    for dof_n in (1, 2):
+        r.instance(fn=f.qualname)
+        c = XArray((2, nPe), [n for row in conn for n in row], "i")
+        g = XObj(ge, {"nPe": nPe, "Ne": 2, "Ncoords": Nn, ge.mangle("__Ncoords"): Nn, "dim": 2, "connect": c, ge.mangle("__connect"): c,
+                      "Get_N_pg": lambda mt=None: XArray((nPg, 1, nPe), [N[p][a] for p in range(nPg) for a in range(nPe)])})
+        vals = XArray((Nn * dof_n,), [Poly.var(f"v{n}_{k}") for n in range(Nn) for k in range(dof_n)])
+        obj = XObj(fld, {"groupElem": g, "matrixType": Opaque("mt"), fld.mangle("__dof_n"): dof_n, "dof_n": dof_n})
+        I = Interp(repo)
+        I.call_hook = fe_hook_full
+        try:
+            out = XArray.from_nested(I.call_function(f, [vals], self_obj=obj))
+        except XRaise as e:
+            r.fail(f.qualname, f"interpolate:dof_n={dof_n}", f.file, f.lineno, "Field.Interpolate", f"dof_n={dof_n}: raises {e}")
+            continue
+        bad = None
+        if out.shape != (2, nPg, dof_n):
+            bad = f"shape {out.shape}, expected (Ne, nPg, dof_n) = (2, {nPg}, {dof_n})"
+        else:
+            for e in range(2):
+                for p in range(nPg):
+                    for k in range(dof_n):
+                        want = sum((N[p][a] * Poly.var(f"v{conn[e][a]}_{k}") for a in range(nPe)), Poly())
+                        if bad is None and not is_zero(Poly.of(out[e, p, k]) - want):
+                            bad = f"value[{e}, {p}, {k}] is {out[e, p, k]!r}, expected {want!r}"
+        if bad:
+            r.fail(f.qualname, f"interpolate:dof_n={dof_n}", f.file, f.lineno, "Field.Interpolate", f"{dof_n} value(s) per node: {bad}: the nodal coefficient is read with another storage order than the node-interleaved one of the dof vectors (a body force / velocity given at the nodes enters the form scrambled)")
+        else:
+            r.ok(f"dof_n={dof_n}: node-interleaved nodal values interpolated with the group's shape functions")
